@@ -2,7 +2,7 @@
 
 Tie: CTLS.modelcheck vs the Lean model `CTLS.modelcheck` (PMC/Model/CTLS.lean).
 """
-from common import all_structures, proof_coverage, random_structure, rng_for
+from common import all_structures, big_structure, proof_coverage, random_structure, rng_for
 from checks import mc_common
 from gen import formulas as F
 from theorems import get
@@ -43,6 +43,18 @@ def cases_for(res, rng):
         K = random_structure(rng, 5)
         cases.append((K, F.rand_ctls_state(rng, rng.choice([3, 4, 5]), max_temporal=3, qdepth=2),
                       'text' if i % 4 == 0 else 'obj'))
+    # scale: larger structures / deeper quantifier nesting / wide n-ary
+    for i in range(120 if quick else 1200):
+        K = big_structure(rng, 7, 9)
+        cases.append((K, F.rand_ctls_state(rng, 4, max_temporal=2, qdepth=2), 'obj'))
+    tiny = [K for n in (1, 2) for K in all_structures(n)]
+    for i in range(120 if quick else 1200):
+        K = rng.choice(tiny)
+        if i % 3 == 0:
+            t = (rng.choice('AE'), (rng.choice(['and', 'or']),) + tuple(F.rand_ltl_path(rng, 1, max_temporal=1) for _ in range(rng.choice([4, 5]))))
+        else:
+            t = F.rand_ctls_state(rng, 6, max_temporal=3, qdepth=4)
+        cases.append((K, t, 'obj'))
     return cases, n_exh
 
 
